@@ -142,6 +142,21 @@ pub fn judge(sc: &Scenario, rep: &LoopReport) -> Judged {
                 if x.line.contains("depth") {
                     j.probes.add("go_with_depth_cap_next_to_the_clocks", 1);
                 }
+                if x.line.contains("searchmoves") {
+                    j.probes.add("go_with_searchmoves", 1);
+                }
+                {
+                    // another parameter pair between two clock pairs
+                    let t: Vec<&str> = x.line.split_whitespace().collect();
+                    let is_clock = |s: &str| ["wtime", "btime", "winc", "binc"].contains(&s);
+                    let first = t.iter().position(|s| is_clock(s));
+                    let last = t.iter().rposition(|s| is_clock(s));
+                    if let (Some(a), Some(b)) = (first, last) {
+                        if t[a..b].iter().any(|s| ["movestogo", "depth", "nodes"].contains(s)) {
+                            j.probes.add("go_with_other_parameters_between_the_clock_pairs", 1);
+                        }
+                    }
+                }
                 j.distinct.push(hash_str(&format!("{}|{}|{}|{}", side, rem, inc, x.line.split_whitespace().filter(|t| t.ends_with("time") || t.ends_with("inc")).collect::<Vec<_>>().join(","))));
                 // the clock as the GUI sees it: virtual time from the go to its bestmove must fit
                 // in the mover's remaining time (plus what C07 allows a search to overrun its
@@ -287,6 +302,60 @@ fn with_movestogo(rng: &mut Rng, line: String, mtg: Option<u64>) -> String {
     }
 }
 
+/// A go whose four clock pairs are interleaved with other parameter pairs a GUI may send
+/// (`movestogo`, a far `depth` cap, `nodes`), at least one of them between two clock pairs,
+/// optionally with a `searchmoves` list in front or behind. Returns the line and its twin:
+/// the same token layout with the opponent's clock and increment replaced.
+fn interleaved_go(rng: &mut Rng, pos: &Pos, rem: u64, inc: u64, orem: (u64, u64), oinc: (u64, u64)) -> (String, String) {
+    let mut order = vec!["wtime", "btime", "winc", "binc"];
+    rng.shuffle(&mut order);
+    // layout: list of (token, which value)
+    let mut layout: Vec<(String, String)> = order.iter().map(|k| (k.to_string(), String::new())).collect();
+    let n_extra = rng.range(1, 2);
+    for e in 0..n_extra {
+        let (k, v) = match rng.below(3) {
+            0 => ("movestogo", rng.pick(&[1u64, 5, 24, 40]).to_string()),
+            1 => ("depth", rng.pick(&[30u64, 64]).to_string()),
+            _ => ("nodes", "100000000".to_string()),
+        };
+        // the first extra pair strictly between two clock pairs
+        let at = if e == 0 { rng.range(1, 3) as usize } else { rng.usize_below(layout.len() + 1) };
+        layout.insert(at, (k.to_string(), v));
+    }
+    let sm = if rng.chance(1, 4) { searchmoves_list(rng, pos) } else { String::new() };
+    let sm_front = rng.chance(1, 2);
+    let render = |orem: u64, oinc: u64| -> String {
+        let (w, b, wi, bi) = if pos.white_to_move { (rem, orem, inc, oinc) } else { (orem, rem, oinc, inc) };
+        let mut s = "go".to_string();
+        if !sm.is_empty() && sm_front {
+            s.push_str(&format!(" searchmoves {}", sm));
+        }
+        for (k, v) in &layout {
+            let v = match k.as_str() {
+                "wtime" => w.to_string(),
+                "btime" => b.to_string(),
+                "winc" => wi.to_string(),
+                "binc" => bi.to_string(),
+                _ => v.clone(),
+            };
+            s.push_str(&format!(" {} {}", k, v));
+        }
+        if !sm.is_empty() && !sm_front {
+            s.push_str(&format!(" searchmoves {}", sm));
+        }
+        s
+    };
+    (render(orem.0, oinc.0), render(orem.1, oinc.1))
+}
+
+/// Two to five legal moves of `pos` in UCI notation (a `searchmoves` list).
+fn searchmoves_list(rng: &mut Rng, pos: &Pos) -> String {
+    let mut ms = gen::moves_uci(&pos.legal_moves());
+    rng.shuffle(&mut ms);
+    let n = (rng.range(2, 5) as usize).min(ms.len());
+    ms[..n].join(" ")
+}
+
 fn go_line(rng: &mut Rng, white_to_move: bool, rem: u64, inc: u64, orem: u64, oinc: u64, with_inc: bool) -> String {
     let (w, b, wi, bi) = if white_to_move { (rem, orem, inc, oinc) } else { (orem, rem, oinc, inc) };
     let mut toks = vec![("wtime", w), ("btime", b)];
@@ -350,11 +419,36 @@ pub fn generate(seed: u64, long: bool) -> Scenario {
         let (orem, oinc) = (clocks[1 - me], incs[1 - me]);
         // one go in six also says how many moves remain to the next time control
         let mtg = if with_inc && rng.chance(1, 6) { Some(*rng.pick(&[1u64, 1, 2, 3, 5, 10, 24, 25, 40])) } else { None };
+        // one go in seven has its clock pairs interleaved with other parameter pairs (and
+        // sometimes a searchmoves list): a budget is still due and must fit the clock; its
+        // twin keeps the layout and replaces the opponent's values
+        if with_inc && rng.chance(1, 7) {
+            let orem2 = clock_value(&mut rng);
+            let oinc2 = rng.range(0, 60_000);
+            let (first, twin) = interleaved_go(&mut rng, p, rem, inc, (orem, orem2), (oinc, oinc2));
+            sc.lines.push(first);
+            let a = sc.lines.len() - 1;
+            sc.lines.push(twin);
+            sc.twins.push((a, sc.lines.len() - 1));
+            let spent = if clocks[me] == 0 { 0 } else { rng.range(0, clocks[me]) };
+            clocks[me] = clocks[me] - spent + incs[me];
+            continue;
+        }
         let first = go_line(&mut rng, p.white_to_move, rem, inc, orem, oinc, with_inc);
         let first = with_movestogo(&mut rng, first, mtg);
         // one go in eight also carries a depth cap (small, or far beyond the budget)
         let dcap = if rng.chance(1, 8) { Some(*rng.pick(&[1u64, 2, 3, 30, 64])) } else { None };
         let first = with_depth(&mut rng, first, dcap);
+        // one go in ten restricts the search to a few moves (before or after the clocks)
+        let sm = if rng.chance(1, 10) { Some((searchmoves_list(&mut rng, p), rng.chance(1, 2))) } else { None };
+        let with_sm = |l: String| -> String {
+            match &sm {
+                None => l,
+                Some((list, true)) => format!("go searchmoves {}{}", list, &l[2..]),
+                Some((list, false)) => format!("{} searchmoves {}", l, list),
+            }
+        };
+        let first = with_sm(first);
         sc.lines.push(first);
         let a = sc.lines.len() - 1;
         // twin: opponent's clock and increment replaced, tokens permuted again
@@ -364,6 +458,7 @@ pub fn generate(seed: u64, long: bool) -> Scenario {
             let twin = go_line(&mut rng, p.white_to_move, rem, inc, orem2, oinc2, with_inc);
             let twin = with_movestogo(&mut rng, twin, mtg);
             let twin = with_depth(&mut rng, twin, dcap);
+            let twin = with_sm(twin);
             sc.lines.push(twin);
             sc.twins.push((a, sc.lines.len() - 1));
         }
@@ -422,7 +517,16 @@ fn generate_long(rng: &mut Rng) -> Scenario {
         };
         let orem = clock_value(rng);
         let oinc = rng.range(0, 5_000);
-        sc.lines.push(go_line(rng, p.white_to_move, rem, inc, orem, oinc, with_inc));
+        let l = go_line(rng, p.white_to_move, rem, inc, orem, oinc, with_inc);
+        // a third of them restrict the search to a few moves: however the engine organises
+        // that, the answer is due within the mover's clock
+        let l = if rng.chance(1, 3) {
+            let list = searchmoves_list(rng, p);
+            if rng.chance(1, 2) { format!("go searchmoves {}{}", list, &l[2..]) } else { format!("{} searchmoves {}", l, list) }
+        } else {
+            l
+        };
+        sc.lines.push(l);
     }
     sc.lines.push("quit".into());
     sc
